@@ -442,6 +442,26 @@ pub fn generate(tier: &str, seed: u64) -> Vec<Rec> {
         }
     }
 
+    // every combination of ALL limbs (not only the first two) for radix 1..3, 2..4 limbs, while the product stays <= 4096
+    for n2 in [4i128, 16, 64, 256] {
+        for b in 1..=3usize {
+            for size in 2..=4usize {
+                let per = 1usize << b;
+                let total = per.pow(size as u32);
+                if total > 4096 { continue; }
+                for dir in [0i128, 1] {
+                    let lo = -(1i64 << (b - 1));
+                    let mut limbs: Vec<Vec<i128>> = vec![Vec::with_capacity(total.max(2)); size];
+                    for idx in 0..total {
+                        let mut r = idx;
+                        for l in limbs.iter_mut() { l.push((lo + (r % per) as i64) as i128); r /= per; }
+                    }
+                    out.push(Rec::new(14004, vec![n2, b as i128, size as i128, dir], limbs));
+                }
+            }
+        }
+    }
+
     // ---------------- blind path, zero mask: exact on every limb, every index ----------------
     for n in [8usize, 16, 32] {
         for (ext, block, dist) in [(1usize, 1usize, 0i128), (1, 1, 1), (1, 1, 2), (1, 1, 3), (1, 3, 0), (2, 3, 0), (4, 1, 0), (8, 2, 0)] {
@@ -523,6 +543,28 @@ pub fn generate(tier: &str, seed: u64) -> Vec<Rec> {
                     let target = if dir == 0 { -(x * t / 16) } else { x * t / 16 };
                     l2n[0] = target - sum;
                     c.x = x;
+                    out.push(Rec::new(14020, c.ps(), vec![f.clone(), crafted_lwe(&c, &l2n), to128(&sk)]));
+                }
+            }
+        }
+    }
+    // set_xai_plus_y is pub(crate): its only use is the table x_pow_a[i] = X^i, i in [0, 2N), of a prepared BinaryBlock key.
+    // Every entry is exercised here: small rings, real keys, every value a in [0, 2N ext) of the selected mask coefficients
+    // (block-binary: x_pow_a[a]; extended: x_pow_a[a / ext] and x_pow_a[(a / ext + 1) mod 2N]), whole polynomial compared.
+    for n in [8usize, 16] {
+        for (block, ext) in [(2usize, 1usize), (2, 2), (3, 4)] {
+            if !thorough && n == 16 && ext == 4 { continue; }
+            for dir in [0i128, 1] {
+                let mut c = tiny_params(if n == 8 { 1 } else { 2 }, n);
+                c.block = block; c.ext = ext; c.dist = 0; c.n_lwe = 3 * block; c.dir = dir; c.p = 2; c.kmsg = 3;
+                // a key that selects at least one coefficient
+                let mut sk = sk_lwe_of(&c);
+                while sk.iter().sum::<i64>() == 0 { c.key_seed += 1; sk = sk_lwe_of(&c); }
+                let t = (2 * n * ext) as i64;
+                let f: Vec<i128> = vec![1, 3, 0, 2];
+                for a in 0..t {
+                    let mut l2n: Vec<i64> = (0..=c.n_lwe).map(|_| rng.range(-t / 2 + 1, t / 2 - 1)).collect();
+                    for i in 0..c.n_lwe { if sk[i] == 1 { l2n[i + 1] = a; } }
                     out.push(Rec::new(14020, c.ps(), vec![f.clone(), crafted_lwe(&c, &l2n), to128(&sk)]));
                 }
             }
